@@ -4,17 +4,17 @@ From MF Require Import Lib.Base Lib.PyDict Lib.PyNum Lib.Regex Model.GrammarType
 Open Scope N_scope.
 
 (* ---------------------------------------------------------------- the hook is total *)
-Lemma top_is_total vs s : exists b, top_is vs s = Ok b.
+Lemma top_is_total up vs s : exists b, top_is up vs s = Ok b.
 Proof. destruct vs as [|[t|d cs m] vs]; eexists; reflexivity. Qed.
 
 Theorem hook_total h t vs : exists t', hook h t vs = Ok t'.
 Proof.
   unfold hook.
   destruct (ttype t =? h_unquoted h).
-  - destruct (top_is_total vs str_SYMBOL) as [b ->]. cbn [bind].
+  - destruct (top_is_total (h_upper h) vs str_SYMBOL) as [b ->]. cbn [bind].
     destruct (b && _); eexists; reflexivity.
   - destruct (ttype t =? h_grid h).
-    + destruct (top_is_total vs str_NAME) as [b ->]. cbn [bind]. destruct b; eexists; reflexivity.
+    + destruct (top_is_total (h_upper h) vs str_NAME) as [b ->]. cbn [bind]. destruct b; eexists; reflexivity.
     + eexists; reflexivity.
 Qed.
 
